@@ -148,6 +148,19 @@ ConvertCase(i, j, k) ==
 \* the functions that ignore the target base are generated once (for T = B)
 ConvertOK(i, k) == CFns[((k - 1) % 5) + 1] \in {"with_base", "with_base_and_precision"} \/ ((i - 1) % 6) = ((i - 1) \div 6)
 
+\* ------------------------------------------------------------------ a base and its power, the root not being 2
+\* i: pair, j: exponent (every residue of the power, both signs) , k: significand pattern (5) x function (2) x precision (3)
+PowPairs == << <<3, 9>>, <<9, 3>>, <<3, 27>>, <<6, 36>>, <<36, 6>> >>
+PowBaseCase(i, j, k) ==
+  LET B == PowPairs[i][1]
+      T == PowPairs[i][2]
+      e == j - 8
+      v == <<1, 2, 4, 6, 10>>[((k - 1) % 5) + 1]
+      fn == <<"with_base", "with_base_and_precision">>[(((k - 1) \div 5) % 2) + 1]
+      tp == <<1, 3, 20>>[((k - 1) \div 10) + 1]
+  IN [op |-> "convert", base |-> B, mode |-> Modes[((i + j + k + Seed) % 6) + 1],
+      x |-> Float((i + j) % 2 = 0, SigDigits0(v, B), B, e, k % 2), fn |-> fn, tbase |-> T, tprec |-> tp]
+
 \* ------------------------------------------------------------------ with_precision by one or two digits
 \* significands just above a power of the base (1000...01), all-max (999...9) and dense ones, of 2..24 digits, shrunk by
 \* one or two digits: a digit-count ESTIMATE that is off by one decides wrongly exactly here
@@ -179,12 +192,12 @@ FromFCase(i, j, k) ==
                    ELSE <<Lcg(j, Seed + 5) * 16 % 65536, Lcg(j + 1, Seed + 5) * 17 % 65536>>]
 
 \* ------------------------------------------------------------------ enumeration
-Classes == {"grammar", "roundtrip", "precprint", "convert", "fromf", "wprec"}
-NI(c) == CASE c = "grammar" -> 6 [] c = "roundtrip" -> 6 [] c = "precprint" -> IF Thorough THEN 6 ELSE 3 [] c = "convert" -> 36 [] c = "fromf" -> 2 [] c = "wprec" -> 6
+Classes == {"grammar", "roundtrip", "precprint", "convert", "fromf", "wprec", "powbase"}
+NI(c) == CASE c = "grammar" -> 6 [] c = "roundtrip" -> 6 [] c = "precprint" -> IF Thorough THEN 6 ELSE 3 [] c = "convert" -> 36 [] c = "fromf" -> 2 [] c = "wprec" -> 6 [] c = "powbase" -> 5
 NJ(c) == CASE c = "grammar" -> 42 [] c = "roundtrip" -> 10 * Len(RTExps) [] c = "precprint" -> 63
-           [] c = "convert" -> 5 * Len(CExps) [] c = "fromf" -> 40 [] c = "wprec" -> 23
+           [] c = "convert" -> 5 * Len(CExps) [] c = "fromf" -> 40 [] c = "wprec" -> 23 [] c = "powbase" -> 15
 NK(c) == CASE c = "grammar" -> 153 [] c = "roundtrip" -> IF Thorough THEN 6 ELSE 3 [] c = "precprint" -> 252
-           [] c = "convert" -> 25 [] c = "fromf" -> 1 [] c = "wprec" -> 6
+           [] c = "convert" -> 25 [] c = "fromf" -> 1 [] c = "wprec" -> 6 [] c = "powbase" -> 30
 
 VARIABLES phase, cls, i, j, k
 vars == <<phase, cls, i, j, k>>
@@ -207,5 +220,6 @@ Case ==
     [] cls = "convert" -> ConvertCase(i, j, k)
     [] cls = "fromf" -> FromFCase(i, j, k)
     [] cls = "wprec" -> WPrecCase(i, j, k)
+    [] cls = "powbase" -> PowBaseCase(i, j, k)
 Emit == phase = "done" => PrintT(<<"GEN", ToJson(Case)>>)
 =============================================================================
